@@ -35,7 +35,10 @@ def validate (j : Json) : Option (Msg Json) := do
   let id ← match field? j "id" with
     | none => pure none
     | some (.str s) => pure (some (Id.str s))
-    | some (.num n) => if n.exponent = 0 then pure (some (Id.int n.mantissa)) else failure
+    | some (.num n) =>
+      -- Union[int, str] in lax mode: a number with zero fractional part is an int
+      if n.mantissa % (10 ^ n.exponent : Nat) = 0 then pure (some (Id.int (n.mantissa / (10 ^ n.exponent : Nat)))) else failure
+    | some (.bool b) => pure (some (Id.int (if b then 1 else 0)))   -- ... and a bool is coerced to 0 / 1
     | some _ => failure
   let method ← match field? j "method" with
     | none => pure none
